@@ -281,6 +281,7 @@ int rt_is_freed (const void *p) { struct blk *b = find_blk (p); return b && b->f
 int rt_block_owner (const void *p) { struct blk *b = find_blk (p); return b ? b->owner : -1; }
 long rt_malloc_count (void) { return G->malloc_count; }
 void rt_fail_malloc_at (long k) { G->fail_at = k ? G->malloc_count + k : 0; }
+int rt_fail_pending (void) { return G->fail_at != 0; }     /* the armed failure has not been consumed (fewer allocations than asked for) */
 
 void *__real_malloc (size_t);
 void __real_free (void *);
